@@ -84,7 +84,7 @@ Proof.
   - apply wf_imageb_ok. vm_compute. reflexivity.
   - eexists. eexists. split; [vm_compute; reflexivity|]. split; [vm_compute; reflexivity|].
     apply coversb_ok. vm_compute. reflexivity.
-  - eexists. split; vm_compute; reflexivity.
+  - eexists. split; [vm_compute; reflexivity|]. vm_compute. reflexivity.
 Qed.
 
 (* three components, P = 8, automatic selection *)
@@ -98,7 +98,7 @@ Proof.
   - apply wf_imageb_ok. vm_compute. reflexivity.
   - eexists. eexists. split; [vm_compute; reflexivity|]. split; [vm_compute; reflexivity|].
     apply coversb_ok. vm_compute. reflexivity.
-  - eexists. split; vm_compute; reflexivity.
+  - eexists. split; [vm_compute; reflexivity|]. vm_compute. reflexivity.
 Qed.
 
 (* the SV1 codec at P = 16 with a difference of -32768 (category 16) *)
@@ -114,7 +114,7 @@ Proof.
   - eexists. eexists. split; [vm_compute; reflexivity|]. split; [vm_compute; reflexivity|].
     apply coversb_ok. vm_compute. reflexivity.
   - vm_compute. tauto.
-  - eexists. split; vm_compute; reflexivity.
+  - eexists. split; [vm_compute; reflexivity|]. vm_compute. reflexivity.
 Qed.
 
 Example C02_diff_reconstruct_nonvacuous :
